@@ -208,9 +208,55 @@ pub fn draw_cfg(rng: &mut Rng, only: Option<&str>) -> Cfg {
 pub fn run(args: &Args, acc: &mut Acc) { run_loop(args, acc, single) }
 
 fn single(args: &Args, acc: &mut Acc, seed: u64, verbose: bool) {
+    if args.get("workload") == Some("storm") { return storm(args, acc, seed, verbose) }
     let mut rng = Rng::new(seed);
     let cfg = draw_cfg(&mut rng, args.only.as_deref());
     let (snap, _ledger) = run_case(&cfg);
+    judge(args, acc, seed, verbose, &cfg, snap)
+}
+
+/// any Uni kind, inside an already running runtime
+async fn uni_dispatch(cfg: Cfg, l: Arc<Ledger>) -> Snapshot {
+    macro_rules! uni { ($ch:ident, $d:ty) => { match cfg.m { 1 => uni_case::<$ch<Tok, N, 1>, $d>(cfg, l).await, _ => uni_case::<$ch<Tok, N, 2>, $d>(cfg, l).await } } }
+    match cfg.kind {
+        "uni.movable.atomic" => uni!(ChannelUniMoveAtomic, Tok),
+        "uni.movable.full_sync" => uni!(ChannelUniMoveFullSync, Tok),
+        "uni.movable.crossbeam" => uni!(ChannelUniMoveCrossbeam, Tok),
+        "uni.zero_copy.atomic" => match cfg.m { 1 => uni_case::<ChannelUniZeroCopyAtomic<Tok, N, 1>, OgreUnique<Tok, AllocatorAtomicArray<Tok, N>>>(cfg, l).await, _ => uni_case::<ChannelUniZeroCopyAtomic<Tok, N, 2>, OgreUnique<Tok, AllocatorAtomicArray<Tok, N>>>(cfg, l).await },
+        _ => match cfg.m { 1 => uni_case::<ChannelUniZeroCopyFullSync<Tok, N, 1>, OgreUnique<Tok, AllocatorFullSyncArray<Tok, N>>>(cfg, l).await, _ => uni_case::<ChannelUniZeroCopyFullSync<Tok, N, 2>, OgreUnique<Tok, AllocatorFullSyncArray<Tok, N>>>(cfg, l).await },
+    }
+}
+
+/// workload `storm`: a few hundred small Unis opened, fed 0-3 events and closed one after the other on ONE multi-thread runtime (no runtime start-up
+/// between them), half of them with cancel_all_streams() right before the close and some with a second concurrent close -- the moments at which the
+/// closing task wakes streams that are, at that very instant, ending and being dropped on other workers. Same snapshot oracle as the other runs.
+fn storm(args: &Args, acc: &mut Acc, seed: u64, verbose: bool) {
+    let mut rng = Rng::new(seed);
+    let workers = 2 + rng.below(5) as usize;
+    let mut cfgs = Vec::new();
+    for _ in 0..200 {
+        let mut kinds: Vec<&'static str> = UNI_KINDS.to_vec();
+        if let Some(o) = args.only.as_deref() { if UNI_KINDS.contains(&o) { kinds.retain(|k| *k == o) } }
+        let kind = *rng.pick(&kinds);
+        let exec = *rng.pick(&[Exec::Plain, Exec::Plain, Exec::Fallibles, Exec::FuturesFallible, Exec::Futures]);
+        let futures = matches!(exec, Exec::FuturesFallible | Exec::Futures);
+        let items: Vec<Item> = (0..rng.below(4)).map(|_| if futures { *rng.pick(&[Item::Ready, Item::Yields(1)]) } else { Item::Sync }).collect();
+        cfgs.push(Cfg { kind, m: 1 + rng.below(2) as usize, exec, limit: 1 + rng.below(2) as u32, rt: Rt::Multi(workers), items, listeners: 1, pause_before_close: rng.below(2) as u8, drop_one_stream_first: false,
+                        with_timeout: false, cancel_before_close: rng.chance(1, 2), second_close: rng.chance(1, 3) });
+    }
+    let batch = cfgs.clone();
+    let out = tk::run(Rt::Multi(workers), Duration::from_secs(120), move || async move {
+        let mut out = Vec::new();
+        for cfg in batch { let ledger = Ledger::new(cfg.items.len().max(1)); out.push(uni_dispatch(cfg, ledger).await) }
+        out
+    });
+    match out {
+        None => { acc.evaluations += 1; acc.inconclusive += 1; acc.count("inconclusive_watchdog", 1) }
+        Some(snaps) => { acc.count("storm_batches(200_unis_closed_back_to_back_on_one_multi_thread_runtime)", 1); for (cfg, snap) in cfgs.iter().zip(snaps.into_iter()) { judge(args, acc, seed, verbose, cfg, Some(snap)) } }
+    }
+}
+
+fn judge(args: &Args, acc: &mut Acc, seed: u64, verbose: bool, cfg: &Cfg, snap: Option<Snapshot>) {
     acc.evaluations += 1;
     acc.count(&format!("runs[{}]", cfg.kind), 1);
     acc.count(if cfg.rt == Rt::CurrentPaused { "runs_on_paused_current_thread_runtime" } else { "runs_on_multi_thread_runtime" }, 1);
